@@ -136,7 +136,19 @@ impl Cmd {
     pub fn long_data(id: u32, param: u16, data: &[u8]) -> Cmd {
         Cmd::new(Kind::LongData, wire::com_long_data(id, param, data))
     }
+    /// COM_STMT_EXECUTE. The flags byte (cursor type; servers ignore bits they do not implement,
+    /// and PARAMETER_COUNT_AVAILABLE means nothing unless CLIENT_QUERY_ATTRIBUTES was negotiated,
+    /// which this server never offers) and the iteration count (always 1 on the wire, never
+    /// interpreted) are the client's: one execute in four carries an arbitrary flags byte, one in
+    /// sixteen another iteration count - chosen by the content, so a case stays reproducible.
     pub fn execute(id: u32, params: &[wire::Param], send_types: bool) -> Cmd {
+        let plain = wire::com_execute(id, 0, 1, params, send_types);
+        let h = crate::util::hash128(&plain).0;
+        let flags = if h % 4 == 0 { (h >> 8) as u8 } else { 0 };
+        let iterations = if h % 16 == 1 { (h >> 16) as u32 } else { 1 };
+        Cmd::new(Kind::Execute, wire::com_execute(id, flags, iterations, params, send_types))
+    }
+    pub fn execute_plain(id: u32, params: &[wire::Param], send_types: bool) -> Cmd {
         Cmd::new(Kind::Execute, wire::com_execute(id, 0, 1, params, send_types))
     }
     pub fn seq(mut self, s: u8) -> Cmd {
@@ -291,6 +303,7 @@ fn run_case_tls(case: &Case) -> Option<Obs> {
         auth_reject: case.auth_reject,
         record_per_command: h & 128 == 0,
         write_fault: None,
+        buffer_writes: h & 256 == 0,
     };
     let o = crate::props::c18::run_tls(m, &c).ok()?;
     if o.world.client_error.is_some() || o.world.deadlock || o.world.wedged {
